@@ -26,7 +26,7 @@ def o_chol_inv(B, S, D, staged=False):
     if staged:
         return B.cholesky_lower(B.inv(S))
     if D == 1:
-        return [[1 / B.sqrt(S[0][0])]]
+        return [[B.sqrt(1 / S[0][0])]]
     det = S[0][0] * S[1][1] - S[0][1] * S[1][0]
     i00, i10, i11 = S[1][1] / det, -S[1][0] / det, S[0][0] / det
     l00 = B.sqrt(i00)
